@@ -198,6 +198,51 @@ pub fn run(ctx: &Ctx) -> Report {
             }
         }
     }
+    // ---- part 3a: clear_frame / update_frame: every RAM command of the call carries exactly one plane ----
+    for spec in panels_for(ctx) {
+        for (k, bg) in [(K::Clear, 1u32), (K::Clear, 0), (K::UpdateFrame, 1)] {
+            rep.eval(spec.name);
+            let mut rig = Rig::simple(spec);
+            let _ = rig.apply(&Op::arg(K::SetBg, bg));
+            let c0 = rig.board.borrow().chip().cmds.len();
+            let op = if k == K::Clear { Op::new(K::Clear) } else { frame_op(spec, K::UpdateFrame, 0xF111) };
+            let o = rig.apply(&op);
+            if !o.is_ok() {
+                rep.count("ops_failing_for_other_reasons", 1);
+                continue;
+            }
+            let b = rig.board.borrow();
+            for c in &b.chip().cmds[c0..] {
+                if !is_ram_write(spec, c.op) {
+                    continue;
+                }
+                // bytes of one complete plane behind this RAM command
+                let bpp = match spec.family {
+                    crate::model::Family::Ssd => 1,
+                    _ => {
+                        if c.op == 0x10 {
+                            spec.bpp1
+                        } else {
+                            spec.bpp2
+                        }
+                    }
+                };
+                let want = ((spec.w * bpp + 7) / 8) * spec.h;
+                rep.count("fill_bytes_counted", c.nparams as u64);
+                if c.nparams != want {
+                    rep.fail(Failure {
+                        panel: spec.name.into(),
+                        entry: k.name().into(),
+                        class: "fill-count".into(),
+                        tags: vec![format!("cmd={:02X}", c.op)],
+                        detail: format!("command {:02X} received {} bytes, one plane is {} bytes", c.op, c.nparams, want),
+                        case: case_json(spec, &ctx.variant, &[Op::arg(K::SetBg, bg), op.clone()]),
+                    });
+                }
+            }
+            rep.nontrivial(hash_str(&format!("plane-fill|{}|{}|{}", spec.name, k.name(), bg)));
+        }
+    }
     // ---- part 3: repeated fills send exactly the requested count ---------------------------------
     for spec in panels_for(ctx) {
         if !spec.has(K::ClearPartial) {
